@@ -6,6 +6,7 @@ import PasfmtModel.Model.Relex
 import PasfmtModel.Model.Cursor
 import PasfmtModel.Model.Parser
 import PasfmtModel.Model.IO
+import PasfmtModel.Model.Consolidators
 
 namespace Pasfmt
 
@@ -88,8 +89,17 @@ def showChanged (before after : List Bytes) : String :=
 
 def bool01 (b : Bool) : String := if b then "1" else "0"
 
+/-- `ck`/`cl` fields: the three consolidators applied to the parser's own kinds and lines -/
+def showConsolidated (pkS plS : String) : String :=
+  match (parseList pkS).mapM TokenType.ofRust, parseLines plS with
+  | some pk, some pl =>
+    let po := consolidators { kinds := pk, lines := pl }
+    let ck := ((pk.zip po.kinds).zipIdx.filter fun ((a, b), _) => a != b).map fun ((_, b), i) => s!"{i}:{b.toRust}"
+    s!"ck={showList ck}\tcl={showLines po.lines}\t"
+  | _, _ => "ck=bad-record\tcl=bad-record\t"
+
 /-- the `fmt` stream: whole pipeline with the parser and wrapper outputs taken from the record -/
-def handleFmt (cfgS inpS kindsS linesS postS changedS alnumS cursorsS : String) (wf : Bool := false) : String :=
+def handleFmt (cfgS inpS kindsS linesS postS changedS alnumS cursorsS : String) (wf : Bool := false) (cons : String := "") : String :=
   match parseCfg cfgS, ofHex inpS, (parseList kindsS).mapM TokenType.ofRust, parseLines linesS,
         (parseList postS).mapM parseFmt, parseChanged changedS, (parseList alnumS).mapM ofHex,
         (parseList cursorsS).mapM String.toNat? with
@@ -115,7 +125,7 @@ def handleFmt (cfgS inpS kindsS linesS postS changedS alnumS cursorsS : String) 
       let marksS := showList ((marks.zipIdx.filter (·.1)).map fun (_, i) => toString i)
       let pre := showList (ft1.map fun t => showFmt t.fmt)
       let prec := showChanged (raw.map (·.content)) (ft1.map (·.tok.content))
-      s!"marks={marksS}\tlv={showLines lines'}\tpre={pre}\tprec={prec}\tkr=1\twc={bool01 wc}\tnd={bool01 ndOk}\trx={bool01 rx}\tcur={showList ((trackCursors cfg.settings raw ft2 cursors).map fun o => match o with | some n => toString n | none => "underflow")}\tout={toHex out}\tinfo_sr={bool01 (safeRunAllGo false ft2)}\tinfo_sn={bool01 (noSafetyNetGo false ft2)}\tinfo_cn={bool01 (canonAll ft2)}\tinfo_nn={bool01 (noNlAll ft2)}\tinfo_nt={bool01 (noTabAll ft2)}"
+      s!"{cons}marks={marksS}\tlv={showLines lines'}\tpre={pre}\tprec={prec}\tkr=1\twc={bool01 wc}\tnd={bool01 ndOk}\trx={bool01 rx}\tcur={showList ((trackCursors cfg.settings raw ft2 cursors).map fun o => match o with | some n => toString n | none => "underflow")}\tout={toHex out}\tinfo_sr={bool01 (safeRunAllGo false ft2)}\tinfo_sn={bool01 (noSafetyNetGo false ft2)}\tinfo_cn={bool01 (canonAll ft2)}\tinfo_nn={bool01 (noNlAll ft2)}\tinfo_nt={bool01 (noTabAll ft2)}"
   | _, _, _, _, _, _, _, _ => "bad-record"
 
 def parseParent (s : String) : Option (Option LineParent) :=
@@ -258,6 +268,8 @@ def handleLine (line : String) : String :=
       | some toks => showRawToks toks
   | ["fmt", cfg, inp, kinds, lines, post, changed, alnum, cursors] => handleFmt cfg inp kinds lines post changed alnum cursors
   | ["fmt", cfg, inp, kinds, lines, post, changed, alnum, cursors, wf] => handleFmt cfg inp kinds lines post changed alnum cursors (wf == "1")
+  | ["fmt", cfg, inp, kinds, lines, post, changed, alnum, cursors, wf, pk, pl] =>
+    handleFmt cfg inp kinds lines post changed alnum cursors (wf == "1") (showConsolidated pk pl)
   | ["parse", kinds, passesOps] => handleParse kinds passesOps
   | ["io", mode, enc, content, header, fmtT, decT, encT] => handleIo mode enc content header fmtT decT encT
   | ["sched", workers] => handleSched workers
